@@ -41,7 +41,7 @@ TIERS = {
 PROBES = ["pending_then_resolved", "premature_use", "other_module_used_first", "cyclic_program", "same_target_twice", "future_annotations",
           "whole_quoted", "local_class", "schema_generated", "constrained_ref", "self_spelling", "acyclic_direct_twin",
           "local_name_collides_with_module", "same_target_three_times", "function_partially_resolvable", "generator_types_by_reference",
-          "subclass_used", "property_output_by_reference", "local_sibling_reference", "class_nested_in_class_body"]
+          "subclass_used", "property_output_by_reference", "local_sibling_reference", "class_nested_in_class_body", "first_use_is_an_assignment"]
 
 CONTAINERS = ["opt", "list", "dict", "union", "req"]
 
@@ -467,6 +467,10 @@ def topo(prog):
 
 
 def generate(rng, tier):
+    if rng.random() < 0.04:
+        # the first use of a declaration is an attribute assignment (an instance made without parsing)
+        return {"prop": ID, "kind": "assign_first", "values": [rng.choice([[{"v": "3"}], [], [{"v": "zz"}], [{"v": 1}, {"v": "2"}]]) for _ in range(rng.choice([1, 2]))],
+                "events": []}
     if rng.random() < 0.12:
         # function-local self-referencing class
         plan = {"prop": ID, "kind": "local", "cont2": rng.choice(["list", "dict", "opt", "union"]),
@@ -728,7 +732,45 @@ def run_direct_twin(prog, uses):
     return out
 
 
+def assign_first_source(S, direct):
+    leaf = f"class Leaf{S}(Schema):\n    v: int = 0\n"
+    node = (f"@utype.dataclass(no_parse=True, set_class_properties=True)\nclass Node{S}:\n    v: int = 0\n"
+            f"    kids: List[{'Leaf' + S if direct else repr('Leaf' + S)}] = Field(default_factory=list)\n")
+    return HEADER + (leaf + node if direct else node + leaf)
+
+
+def execute_assign_first(plan):
+    res = RunResult()
+    kernel.reset_world()
+    faults.register_leaves()
+    outs = []
+    for direct in (True, False):
+        S = "__" + kernel.new_suffix()
+        mod = kernel.make_module("verif_c17_af_" + S.strip("_"), assign_first_source(S, direct))
+        inst = getattr(mod, "Node" + S)()
+        got = []
+        for v in plan["values"]:
+            def assign():
+                inst.kids = copy.deepcopy(v)
+                return inst.kids
+            got.append(_outcome(assign))
+        outs.append(got)
+    res.ev("direct", outs[0])
+    res.ev("by-reference", outs[1])
+    res.stats["probe:first_use_is_an_assignment"] += 1
+    for n, (d, r) in enumerate(zip(*outs)):
+        if d != r:
+            res.violate(f"C17|assign_first|{_kind(r, d)}",
+                        f"assignment #{n} inst.kids = {plan['values'][n]} on an instance made without parsing gave {kernel.jdump(r)[:160]}, "
+                        f"the declaration with direct references gives {kernel.jdump(d)[:160]}")
+            break
+    res.nontrivial = kernel.digest_of(["assign_first", plan["values"]])
+    return res
+
+
 def execute(plan):
+    if plan.get("kind") == "assign_first":
+        return execute_assign_first(plan)
     res = RunResult()
     kernel.reset_world()
     faults.register_leaves()
@@ -971,6 +1013,17 @@ def _kind(got, want):
 # ----------------------------------------------------------------------------- shrinking
 
 def shrink(plan):
+    if plan.get("kind") == "assign_first":
+        for i in range(len(plan["values"])):
+            if len(plan["values"]) > 1:
+                p = copy.deepcopy(plan)
+                p["values"].pop(i)
+                yield p
+        return
+    yield from _shrink(plan)
+
+
+def _shrink(plan):
     ev = plan["events"]
     for i in range(len(ev) - 1, -1, -1):
         if ev[i]["ev"] in ("use", "use_local", "schema", "other_module"):
